@@ -234,6 +234,30 @@ fn run_case(dbd: &DbDef, r: &mut Rng, model: &mut model::Model, rep: &mut Report
             }
         }
     }
+    // IN / NOT IN over a SLICE of the subquery (ORDER BY … LIMIT / OFFSET): the slice is computed here
+    // (NULLs last, ties are interchangeable because only the key values matter)
+    if want == Ty::Int {
+        let mut keyed: Vec<&Vec<Lit>> = b.rows.iter().collect();
+        keyed.sort_by_key(|row| match row[kb] { Lit::I(v) => (0, v), _ => (1, 0) });
+        let m = r.below(4) as usize;
+        let lim: Option<usize> = if r.chance(1, 2) { Some(r.below(4) as usize) } else { None };
+        let slice: Vec<Vec<Lit>> = keyed.iter().skip(m).take(lim.unwrap_or(usize::MAX)).map(|x| (*x).clone()).collect();
+        let bs = TableDef { schema: b.schema.clone(), rows: slice };
+        let tail = format!("ORDER BY {}{}{}", cb, lim.map(|n| format!(" LIMIT {}", n)).unwrap_or_default(), if m > 0 { format!(" OFFSET {}", m) } else { String::new() });
+        if lim.is_some() || m > 0 {
+            for (op, kw) in [("notin", "NOT IN"), ("semi", "IN")] {
+                let q = format!("SELECT {} FROM {} WHERE {} {} (SELECT {} FROM {} {})", all_a, ta, ca, kw, cb, tb, tail);
+                let o = db.query(&q);
+                let (req, spec) = model_rows(model, op, ka, kb, a, &bs);
+                rep.traces_validated += 1;
+                rep.count(&format!("family_sliced_{}", op));
+                if bag(&o).as_ref() != Some(&spec) {
+                    rep.fail(FailKind::Oracle, None, &format!("x {} (subquery with ORDER BY … LIMIT/OFFSET): the result is not the TRUE-set over the slice", kw),
+                        &format!("{}{};\n  => {}\n-- request: {}\n-- spec: {:?}", script, q, o.brief(), req, spec));
+                }
+            }
+        }
+    }
     // F4: derived-table wrapping
     family(
         rep,
